@@ -165,6 +165,79 @@ def task_sim_enum(task):
             "parsed": str(program), "variables": sorted(str(v) for v in program.variables)}
 
 
+# ---- programs given directly in the parsed form (Assignment objects with condition / default) ----
+def _dec(t):
+    """JSON (lists, "n/d" strings tagged as ["q", "n/d"]) -> progast tuples with Fractions"""
+    if isinstance(t, list):
+        if len(t) == 2 and t[0] == "q":
+            return Fraction(t[1])
+        return tuple(_dec(x) for x in t)
+    return t
+
+
+def _build_cond(c):
+    from program.condition import Atom, Not, And, Or, TrueCond, FalseCond
+    import progast
+    k = c[0]
+    if k == "true":
+        return TrueCond()
+    if k == "false":
+        return FalseCond()
+    if k == "atom":
+        return Atom(progast.e_text(c[1]), c[2], progast.e_text(c[3]))
+    if k == "not":
+        return Not(_build_cond(c[1]))
+    if k == "and":
+        return And(_build_cond(c[1]), _build_cond(c[2]))
+    return Or(_build_cond(c[1]), _build_cond(c[2]))
+
+
+def _build_block(b):
+    from program.assignment import PolyAssignment, DistAssignment
+    from program.ifstatem import IfStatem
+    from program.distribution import distribution_factory
+    from symengine.lib.symengine_wrapper import Symbol
+    import progast
+    out = []
+    for st in b:
+        if st[0] == "gassign":
+            _, x, cond, default, rhs = st
+            if rhs[0] == "choice":
+                a = PolyAssignment(x, [progast.e_text(e) for _, e in rhs[1]], [progast.e_text(pr) for pr, _ in rhs[1]])
+            else:
+                d = rhs[1]
+                if d[0] == "bern":
+                    dist = distribution_factory("Bernoulli", [progast.e_text(d[1])])
+                elif d[0] == "cat":
+                    dist = distribution_factory("Categorical", [progast.e_text(q) for q in d[1]])
+                else:
+                    dist = distribution_factory("DiscreteUniform", [str(d[1]), str(d[2])])
+                a = DistAssignment(x, dist)
+            a.condition = _build_cond(cond)
+            a.default = Symbol(default)
+            out.append(a)
+        else:
+            _, brs, els = st
+            out.append(IfStatem([_build_cond(c) for c, _ in brs], [_build_block(bb) for _, bb in brs],
+                                _build_block(els) if els is not None else None))
+    return out
+
+
+def task_sim_enum_parsed(task):
+    """task: prog = JSON of {"init","guard","body"} in the parsed form, N, vars, cap"""
+    import types
+    prog = {k: _dec(v) for k, v in task["prog"].items()}
+    program = types.SimpleNamespace(initial=_build_block(prog["init"]), loop_guard=_build_cond(prog["guard"]),
+                                    loop_body=_build_block(prog["body"]))
+    try:
+        paths, src = enumerate_paths(program, task["N"], task["vars"], task.get("cap", 2000))
+    except Overflow:
+        return {"overflow": True}
+    return {"paths": paths, "calls": src.calls,
+            "parsed": "\n".join(str(a) for a in program.initial) + f"\nwhile {program.loop_guard}:\n" +
+                      "\n".join("    " + str(a).replace("\n", "\n    ") for a in program.loop_body)}
+
+
 # ---- samplers ---------------------------------------------------------------------------
 SCIPY_FAMS = ["bernoulli", "norm", "laplace", "expon", "gamma", "beta", "uniform", "truncnorm"]
 
